@@ -10,8 +10,11 @@ TAttempt == Ev.op = "attempt" /\ Attempt /\ att' = Ev.n
 TDelay   == Ev.op = "delay" /\ Retry(Ev.d)
 \* the classification step is not logged: GiveUp is composed into the return
 TRet     == Ev.op = "ret" /\ Ev.searchok /\ ReturnFrom(IF pc = "failed" THEN "fallback" ELSE pc, Ev.kind, Ev.err)
+\* the command line: with the configured path absent and a good file at a documented fall-back location, the search runs
+\* on that file (its entries are found) followed by the notebook's entries when there is one
+TCliPath == Ev.op = "clipath" /\ Ev.found /\ (Ev.haspers => Ev.foundpers) /\ UNCHANGED lvars
 TraceInit == l = 1 /\ cfg = [main |-> "ok", personal |-> "ok", maxatt |-> 1, cap |-> 0, heal |-> 0] /\ pc = "init" /\ att = 0 /\ delays = <<>> /\ res = NoRes
-TraceNext == l <= Len(Trace) /\ l' = l + 1 /\ (TStart \/ TAttempt \/ TDelay \/ TRet)
+TraceNext == l <= Len(Trace) /\ l' = l + 1 /\ (TStart \/ TAttempt \/ TDelay \/ TRet \/ TCliPath)
 TraceSpec == TraceInit /\ [][TraceNext]_tvars
 TraceAccepted ==
     LET d == TLCGet("stats").diameter IN
